@@ -340,6 +340,11 @@ func (jenny RawTypes) generateFromJSONMethod(context languages.Context, object a
 
 func (jenny RawTypes) fromJSONForType(context languages.Context, typeDef ast.Type, inputVar string, hint string) fromJSONCode {
 	if typeDef.IsRef() { //nolint:gocritic
+		// aliases are emitted as `typing.TypeAlias`: decoding goes through the aliased type
+		if referredObj, found := context.LocateObject(typeDef.AsRef().ReferredPkg, typeDef.AsRef().ReferredType); found && referredObj.Type.IsRef() {
+			return jenny.fromJSONForType(context, referredObj.Type, inputVar, hint+"_ref")
+		}
+
 		resolvedType := context.ResolveRefs(typeDef)
 		if resolvedType.IsStruct() {
 			formattedRef := jenny.typeFormatter.formatFullyQualifiedRef(typeDef.AsRef(), false)
